@@ -1626,6 +1626,29 @@ func c06Grammar(c *Ctx, p *Prog) {
 		for _, st := range stores {
 			k, ok := st.Val.(*ssa.Const)
 			if !ok {
+				// the operator is a parameter of a node-building helper: one construction per call site, with the
+				// operator given there
+				if prm, isP := st.Val.(*ssa.Parameter); isP {
+					pi := -1
+					for i, q := range fn.Params {
+						if q == prm {
+							pi = i
+						}
+					}
+					for _, g := range p.Funcs("benchproc/internal/parse") {
+						eachInstr(g, func(_ *ssa.BasicBlock, in ssa.Instruction) {
+							call, isC := in.(ssa.CallInstruction)
+							if !isC || call.Common().StaticCallee() != fn || pi < 0 || pi >= len(call.Common().Args) {
+								return
+							}
+							if kc, isK := call.Common().Args[pi].(*ssa.Const); isK {
+								found = append(found, fmt.Sprintf("%s[children many]", opNames[constKey(kc.Value)]))
+							} else {
+								found = append(found, "?[children many]")
+							}
+						})
+					}
+				}
 				continue
 			}
 			op := opNames[constKey(k.Value)]
